@@ -1,7 +1,7 @@
 """Implementation adapter for C13: same line protocol as ocaml/c13_driver.ml, answers from the repository's
 public API (keys.sign / keys.verify / Signature.parse_bytes / encoding.der_encode_sig).
 
-  sign <d> <msghex> <k|-> <ht> <form>     form = 2 letters: txid as b(ytes)/h(ex str); key as K(ey)/H(DKey)/S(hex str)
+  sign <d> <msghex> <k|-> <ht> <form>     form = 2 letters: txid as b(ytes)/h(ex str)/U(pper-case hex str); key as K(ey)/H(DKey)/S(hex str)
       -> "<r> <s> <der+hashtype hex>"     (signed twice; "NONDET" if the two answers differ; "BADK" if .k is not
                                            the nonce that was asked for)
   verify <digesthex> <sighex> <pubkeyhex> <form>   form = 3 letters: digest b/h, signature b/h, key K(ey object)/B(ytes)
@@ -30,7 +30,7 @@ def mkpriv(d, form):
 
 
 def one_sign(d, msg, k, ht, form):
-    txid = msg if form[0] == 'b' else msg.hex()
+    txid = msg if form[0] == 'b' else msg.hex().upper() if form[0] == 'U' else msg.hex()
     sg = sign(txid, mkpriv(d, form[1]), k=k, hash_type=ht)
     out = '%d %d %s' % (sg.r, sg.s, hx(sg.as_der_encoded()))
     # the object must be self-consistent: raw form, DER without hash type, own verification
